@@ -284,7 +284,12 @@ class Model:
         L = []
         L.append('g3 1 1 0\t# problem %s' % self.name)
         L.append(' %d %d %d %d %d %d' % (n, len(self.cons), len(self.objs), nranges, neqns, len(self.lcons)))
-        L.append(' %d %d' % (nlc, nlo))
+        ncc_lin = sum(1 for c in self.cons if c.get('compl') is not None and c['nl'] is None)
+        ncc_nl = sum(1 for c in self.cons if c.get('compl') is not None and c['nl'] is not None)
+        if ncc_lin or ncc_nl:      # C19 extension: complementarity rows (con['compl'] = (var, flags))
+            L.append(' %d %d %d %d 0 0' % (nlc, nlo, ncc_lin, ncc_nl))
+        else:
+            L.append(' %d %d' % (nlc, nlo))
         L.append(' 0 0')
         L.append(' %d %d %d' % (h['nlvc'], h['nlvo'], h['nlvb']))
         L.append(' 0 0 0 1')
@@ -327,6 +332,9 @@ class Model:
         for i in corder:
             c = self.cons[i]
             lb, ub = c['lb'], c['ub']
+            if c.get('compl') is not None:
+                L.append('5 %d %d' % (c['compl'][1], pos[c['compl'][0]] + 1))
+                continue
             if lb is None and ub is None:
                 L.append('3')
             elif lb is None:
